@@ -8,6 +8,7 @@ line of the op into class `W`: used for inputs outside the property's domain):
 * `rt <secs> <fmt> <full|short> <parse fmt>`   format, then parse the text just produced
 * `acc <secs> <ms>`     `aws_date_time_init_epoch_secs(secs + ms/1000.0)`, accessors and epoch views
 * `millis <u64>`        `aws_date_time_init_epoch_millis`, accessors and epoch views
+* `fmtb <cap> <prefix hex> (<secs> <fmt> <full|short>)+`   format one after the other into one buffer holding the prefix
 -/
 namespace Driver.DateTimeD
 open AwsVerif.DateTime Driver
@@ -53,6 +54,35 @@ def showParse (r : Except Err DateTime) : List String :=
   | .ok dt => [s!"P parse OK {fields dt}", s!"W utc={if dt.utcAssumed then 1 else 0} tz={hexOf (toBytes dt.tz)}", views dt]
   | .error e => [s!"P parse {errName e}"]
 
+/-- `fmtb <cap> <prefix hex> (<secs> <fmt> <full|short>)+`: the timestamps are formatted one after the other
+into one buffer that already holds the prefix, a `/` pushed between them when there is room; then every
+appended range is parsed back with auto-detect -/
+def parseSteps : List String → Option (List (Int × Fmt × Bool))
+  | [] => some []
+  | secs :: f :: sh :: rest => do
+    let a ← parseInt? secs; let b ← fmt? f; let c ← short? sh; let r ← parseSteps rest
+    pure ((a, b, c) :: r)
+  | _ => none
+
+def showBuf (tag : String) (b : Buf) : String := s!"P fmtb {tag} len={b.data.length} data={hexOf (toBytes b.data)}"
+
+def runSteps (b : Buf) (first : Bool) : List (Int × Fmt × Bool) → List String × List (List Nat)
+  | [] => ([], [])
+  | (secs, f, sh) :: rest =>
+    let b := if !first ∧ b.data.length < b.cap then { b with data := b.data ++ [47] } else b
+    match formatInto (initEpochSecs secs 0) f sh b with
+    | .ok b' =>
+      let (ls, ts) := runSteps b' false rest
+      (showBuf "OK" b' :: ls, b'.data.drop b.data.length :: ts)
+    | .error e =>
+      let (ls, ts) := runSteps b false rest
+      (showBuf (errName e) b :: ls, ts)
+
+def runFmtb (cap : Nat) (pre : List Nat) (steps : List (Int × Fmt × Bool)) : List String :=
+  if pre.length > cap ∨ steps.isEmpty then ["bad-op"] else
+  let (ls, texts) := runSteps { data := pre, cap := cap } true steps
+  ls ++ (texts.map (fun t => showParse (initFromStr t .autoDetect))).flatten
+
 def run (t : List String) : List String :=
   match t with
   | ["fmt", secs, f, sh] => match parseInt? secs, fmt? f, short? sh with
@@ -76,6 +106,9 @@ def run (t : List String) : List String :=
   | ["millis", ms] => match parseU64? ms with
     | some ms => if ms < u64 then let dt := initEpochMillis ms; [s!"P acc {fields dt}", views dt] else ["bad-op"]
     | none => ["bad-op"]
+  | "fmtb" :: cap :: pre :: steps => match cap.toNat?, parseHex? pre, parseSteps steps with
+    | some cap, some pre, some steps => runFmtb cap (pre.map (·.toNat)) steps
+    | _, _, _ => ["bad-op"]
   | _ => ["bad-op"]
 
 def asW (l : String) : String := if l.startsWith "P " then "W " ++ (l.drop 2).toString else l
